@@ -453,6 +453,10 @@ def read_swans(
             coords=OrderedDict(((attrs.TIMENAME, times), (attrs.SITENAME, sites))),
         )
 
+    # Records sorted by time
+    if len(cycles) == 1:
+        dsets = dsets.sortby(attrs.TIMENAME)
+
     # Setting multi-index
     if len(cycles) > 1:
         dsets = dsets.rename({attrs.TIMENAME: "cycletime"})
